@@ -9,7 +9,7 @@ BEGIN, END = "<!-- BEGIN SEEDED -->", "<!-- END SEEDED -->"
 def main():
     rows = ["| property / change | what was changed (function) | confirmed (suite passes, demo fails only on the change) | outcome of the check | failing obligation |", "|---|---|---|---|---|"]
     n = {"VIOLATION": 0, "UNDECIDED": 0, "OK": 0}
-    for d in sorted(glob.glob(os.path.join(ROOT, "seeded", "C*", "m*"))):
+    for d in sorted(glob.glob(os.path.join(ROOT, "seeded", "C*", "m*")) + glob.glob(os.path.join(ROOT, "seeded", "C*", "r2m*")), key=lambda x: (x.split(os.sep)[-2], x.split(os.sep)[-1].startswith("r2"), x.split(os.sep)[-1])):
         p, m = d.split(os.sep)[-2:]
         try:
             meta = json.load(open(os.path.join(d, "meta.json")))
